@@ -79,6 +79,34 @@ func c08SkipScripts(which int) []func(g *c08Gen) rawReq {
 	}
 }
 
+// c08CrossScripts: requests that are consistent in themselves — the token of a live session together with the nonce that
+// very session issued — but belong to another protocol than the session's: TO0.OwnerSign under a TO1 session (after
+// TO1.HelloRV for a registered device), TO1.ProveToRV under a TO0 session, TO0.OwnerSign under a TO2 session.
+func c08CrossScripts(which int) []func(g *c08Gen) rawReq {
+	last := func(g *c08Gen) int { return len(g.ss) - 1 }
+	start := func(typ, dev int) func(*c08Gen) rawReq {
+		return func(g *c08Gen) rawReq {
+			return rawReq{Tok: "n", Typ: typ, Wf: true, NonceOf: -1, Signer: -1, EncS: -1, KexOk: true, IdxOk: true, Dev: dev}
+		}
+	}
+	under := func(typ, dev int) func(*c08Gen) rawReq {
+		return func(g *c08Gen) rawReq {
+			k := last(g)
+			q := g.base(k, typ)
+			q.Dev, q.NonceOf, q.Signer = dev, k, dev
+			return q
+		}
+	}
+	switch which % 3 {
+	case 0:
+		return []func(g *c08Gen) rawReq{start(20, 0), under(22, 1), start(30, 1), under(22, 2)}
+	case 1:
+		return []func(g *c08Gen) rawReq{start(20, 0), under(22, 1), start(20, 0), under(32, 1)}
+	default:
+		return []func(g *c08Gen) rawReq{start(60, 1), under(22, 2)}
+	}
+}
+
 func (g *c08Gen) live(k int) bool {
 	return k < len(g.rw.sess) && g.rw.sess[k].token != "" && g.rw.live(g.rw.sess[k].token)
 }
@@ -193,7 +221,15 @@ func (g *c08Gen) anyEnc() (int, int) {
 
 func (g *c08Gen) perturb(q rawReq) rawReq {
 	n := len(g.ss)
-	switch g.r.IntN(12) {
+	switch g.r.IntN(13) {
+	case 12:
+		// another session's token *and* that session's own nonce: a request that is consistent in itself, but made in a
+		// session that never was at this step (often a session of another protocol — TO0.OwnerSign under a TO1 session's
+		// token carrying the nonce TO1 issued there)
+		if n > 0 {
+			j := g.r.IntN(n)
+			q.Tok, q.NonceOf = fmt.Sprintf("s%d", j), j
+		}
 	case 0:
 		q.Tok = "n"
 	case 1:
@@ -301,6 +337,9 @@ func c08Sequence(x *runCtx, r *rand.Rand, backend string, k lab.Kind, reuse bool
 	classes := map[string]int{}
 	if seqNo%8 == 5 {
 		g.script = c08SkipScripts(seqNo / 8)
+	}
+	if seqNo%8 == 7 { // these run on the SQLite backend (seqNo%4 == 3)
+		g.script = c08CrossScripts(seqNo / 8)
 	}
 	for step := 0; step < length; step++ {
 		var q rawReq
